@@ -265,7 +265,17 @@ func (x *Exec) exprMulti(s *State, fr *Frame, e ast.Expr, n int) Value {
 	case *ast.CallExpr:
 		return x.call(s, fr, v)
 	case *ast.TypeAssertExpr:
-		unsup("comma-ok type assertion")
+		// v, ok := x.(T): the dynamic type of an interface value is not tracked, so both
+		// results are unknown (a well-formed T and a boolean); sound for either outcome
+		if v.Type != nil {
+			x.expr(s, fr, v.X)
+			t := fr.info.TypeOf(v.Type)
+			val := x.fresh(s, t, "assert")
+			x.assumeWF(s, t, val)
+			x.note("abstracted", "type assertion result is unknown: "+exprText(x.w.Fset, v))
+			return &TupleV{V: []Value{val, &Scalar{T: x.ctx.Fresh("assertok", SBool)}}}
+		}
+		unsup("type switch guard")
 	case *ast.IndexExpr:
 		// map lookup with comma-ok
 		if _, ok := fr.info.TypeOf(v.X).Underlying().(*types.Map); ok {
